@@ -278,7 +278,7 @@ def marking(ctx, P):
     ctx.ob("InvalidChainFound/marks-descendants", "MPT", "InvalidChainFound unconditionally calls SetBlockFailureFlags on the invalid block", ok, icf.where)
     sbf = ctx.used(P.fn(CS + "SetBlockFailureFlags"))
     loops = [st for st in stmts(sbf.body) if st.get("k") == "foreach" and match([".", ANY, "node::BlockManager::m_block_index"], st.get("range"))]
-    ok = len(loops) == 1 and not has_break(loops[0]["b"]) and not [st for st in stmts(loops[0]["b"]) if st.get("k") in ("ret", "throw", "continue")] and \
+    ok = len(loops) == 1 and not has_break(loops[0]["b"]) and not [st for st in stmts(loops[0]["b"]) if st.get("k") in ("ret", "throw")] and \
         any(x is loops[0] for x in sbf.body.get("s", []))
     ctx.ob("SetBlockFailureFlags/complete-scan", "LADDER", "SetBlockFailureFlags visits every entry of the block index (no early exit)", ok, sbf.where)
     sub = alias_naming(sbf, P)
@@ -305,16 +305,45 @@ def marking(ctx, P):
     atoms = {"FAILED": re.compile(r"BLOCK_FAILED_VALID & %s\.nStatus" % el),
              "DESC": re.compile(r"(%s\.GetAncestor\(pindex\.nHeight\) == pindex|pindex == %s\.GetAncestor\(pindex\.nHeight\))" % (el, el)),
              "ANC": re.compile(r"(pindex\.GetAncestor\(%s\.nHeight\) == &%s|&%s == pindex\.GetAncestor\(%s\.nHeight\))" % (el, el, el, el))}
+    atoms.update({"VALIDTX": re.compile(r"%s\.IsValid\(BLOCK_VALID_TRANSACTIONS\)" % el),
+                  "HAVETX": re.compile(r"%s\.HaveNumChainTxs\(\)" % el),
+                  "BETTER": re.compile(r"(setBlockIndexCandidates\.value_comp\(\)|(node::)?CBlockIndexWorkComparator\{\})\(m_chain\.Tip\(\), &%s\)" % el),
+                  "ISBEST": re.compile(r"(&%s == m_chainman\.m_best_invalid|m_chainman\.m_best_invalid == &%s)" % (el, el))})
+    CLEARED = "FAILED && (DESC || ANC)"
+
+    def exact(site, spec, oid, text):
+        fb, mp, un = F.bind_atoms(site.formula(sub), atoms)
+        un = [u for u in un if not u.startswith("done(loop@")]
+        c1, c2 = F.counterexample(F.parse(spec), fb), F.counterexample(fb, F.parse(spec))
+        ok = c1 is None and c2 is None and not un
+        ctx.ob("ResetBlockFailureFlags/%s@L%s" % (oid, site.line), "TWIN", text, ok, site.where,
+               None if ok else {"guard": F.fshow(site.formula(sub))[:900], "spec": spec, "unbound": un[:6], "counterexample": c1 or c2})
     for s in clr:
-        fb, mp, un = F.bind_atoms(s.formula(sub), atoms)
-        c = F.counterexample(F.parse("FAILED && (DESC || ANC)"), fb)
-        ctx.ob("ResetBlockFailureFlags/scope@L%s" % s.line, "LADDER", "reconsidering a block clears BLOCK_FAILED_VALID on it, on all its descendants and on all its ancestors",
-               c is None, s.where, None if c is None else {"guard": F.fshow(s.formula(sub)), "unbound": un})
-    ins = sites(rbf, lambda e: is_expr(e) and e[0] == "mcall" and e[1] == "std::set::insert" and match([".", ["this"], CS + "setBlockIndexCandidates"], e[2]), P)
+        tgt_ok = re.fullmatch(el, F.key(F.expand(s.expr[2][1], sub))) is not None
+        ctx.ob("ResetBlockFailureFlags/clears-visited-entry@L%s" % s.line, "PROVENANCE", "the flag is cleared on the block index entry being visited", tgt_ok, s.where)
+        exact(s, CLEARED, "scope", "reconsidering a block clears BLOCK_FAILED_VALID exactly on the failed entries that are the block itself, one of its descendants or one of "
+              "its ancestors")
+    is_el_addr = lambda x: re.fullmatch("&" + el, F.key(F.expand(x, sub))) is not None
+    ins = [s for s in sites(rbf, lambda e: is_expr(e) and e[0] == "mcall" and e[1] == "std::set::insert" and match([".", ["this"], CS + "setBlockIndexCandidates"], e[2]), P)]
     ctx.ob("ResetBlockFailureFlags/re-offers", "LADDER", "reconsidered blocks are offered to setBlockIndexCandidates again (the most-work choice can be restored)",
            len(ins) >= 1 and all(s.line > clr[0].line for s in ins), rbf.where)
+    for s in ins:
+        ctx.ob("ResetBlockFailureFlags/re-offers-visited-entry@L%s" % s.line, "PROVENANCE", "the entry offered as a candidate is the one whose flag was cleared",
+               is_el_addr(call_args(s.expr)[0]), s.where)
+        exact(s, CLEARED + " && VALIDTX && HAVETX && BETTER", "candidate-criterion",
+              "every entry whose failure flag is cleared is re-offered to setBlockIndexCandidates exactly when it meets the candidate criterion itself "
+              "(IsValid(BLOCK_VALID_TRANSACTIONS) && HaveNumChainTxs() && more work than the tip) - no further filter such as 'descendants only'")
+    dirty = sites(rbf, lambda e: is_expr(e) and e[0] == "mcall" and e[1] == "std::set::insert" and match([".", ANY, "node::BlockManager::m_dirty_blockindex"], e[2]), P)
+    ctx.ob("ResetBlockFailureFlags/dirty-exists", "EFFECT", "ResetBlockFailureFlags records the changed entries in m_dirty_blockindex", len(dirty) >= 1, rbf.where)
+    for s in dirty:
+        if is_el_addr(call_args(s.expr)[0]):
+            exact(s, CLEARED, "marks-dirty", "an entry is marked dirty (to be written to the block index database) exactly when its failure flag is cleared")
+    rst = sites(rbf, lambda e: is_expr(e) and e[0] == "b" and e[1] == "=" and match([".", ANY, "ChainstateManager::m_best_invalid"], e[2]) and match(["null"], e[3]), P)
+    ctx.ob("ResetBlockFailureFlags/best-invalid-reset-exists", "EFFECT", "ResetBlockFailureFlags can reset m_best_invalid", len(rst) >= 1, rbf.where)
+    for s in rst:
+        exact(s, CLEARED + " && ISBEST", "best-invalid-reset", "m_best_invalid is reset exactly when the entry it points to has its failure flag cleared")
     loops = [st for st in stmts(rbf.body) if st.get("k") == "foreach" and match([".", ANY, "node::BlockManager::m_block_index"], st.get("range"))]
-    ok = len(loops) == 1 and not has_break(loops[0]["b"]) and not [st for st in stmts(loops[0]["b"]) if st.get("k") in ("ret", "throw", "continue")]
+    ok = len(loops) == 1 and not has_break(loops[0]["b"]) and not [st for st in stmts(loops[0]["b"]) if st.get("k") in ("ret", "throw")]
     ctx.ob("ResetBlockFailureFlags/complete-scan", "LADDER", "ResetBlockFailureFlags visits every entry of the block index", ok, rbf.where)
 
 
@@ -507,6 +536,19 @@ def invalidate(ctx, P):
             ok = match(["param", "pindex"], tgt) and F.counterexample(fb, F.parse("!WASIN")) is None
             ctx.ob("InvalidateBlock/never-in-chain-marked@L%s" % s.line, "MPT", "after the loop only the requested block itself is marked, and only if it never was in the "
                    "active chain", ok, s.where)
+    # sibling agreement with ResetBlockFailureFlags: blocks (other than the new tip itself) re-offered as candidates meet the same validity criterion
+    asub = alias_naming(f, P)
+    for s in sites(f, lambda e: is_expr(e) and e[0] == "mcall" and e[1] == "std::set::insert" and match([".", ["this"], CS + "setBlockIndexCandidates"], e[2]), P):
+        arg = call_args(s.expr)[0]
+        if arg[0] == "local" and any(match(["mcall", "CChain::Tip", [".", ["this"], CS + "m_chain"]], v) for _, v in local_values(f, arg[1])):
+            continue      # the new tip after a successful DisconnectTip
+        k = F.key(F.expand(arg, asub))
+        k = re.escape(k[1:] if k.startswith("&") else k)
+        fb, mp, un = F.bind_atoms(s.formula(asub), {"VALIDTX": re.compile(r"%s\.IsValid\(BLOCK_VALID_TRANSACTIONS\)" % k), "HAVETX": re.compile(r"%s\.HaveNumChainTxs\(\)" % k)})
+        ok = F.counterexample(fb, F.parse("VALIDTX && HAVETX")) is None
+        ctx.ob("InvalidateBlock/candidate-criterion@L%s" % s.line, "SYMMETRY", "a block InvalidateBlock offers as a candidate (other than the new tip) satisfies "
+               "IsValid(BLOCK_VALID_TRANSACTIONS) && HaveNumChainTxs(), the criterion ResetBlockFailureFlags uses", ok, s.where,
+               None if ok else {"guard": F.fshow(s.formula(asub))[:500], "entry": k})
     # all successful exits pass InvalidChainFound(last disconnected / requested block)
     icf = mcall_named(CS + "InvalidChainFound")
     must_before(ctx, f, P, [("PROPAGATED", icf)], [], "InvalidateBlock", exit_checks=[
